@@ -860,6 +860,7 @@ def main() -> int:
             "pre-emption only at line/opcode/return events inside the package; C-level sections and dependencies are atomic (true under the GIL)",
             "solo outcome of each call is taken from a pristine fork of a process that imported the package and made no call",
             "sampling, not enumeration: a clean batch is evidence, not proof",
+            "the lock-contention and deadlock probes can only fire on a tree that contains locks (this one has none); they are exercised by the self-test rewrites p14_lock_repair and m14_lock_order_deadlock",
         ])
     print(f"C14 {args.tier}: runs={agg['runs']} (sweep {agg['sweep_runs']}) interleavings={len(inter)} "
           f"nontrivial={len(nontriv)} steps={agg['steps']} switches={agg['switches']} violations_seen={vcount} "
